@@ -2,15 +2,17 @@ import NodisVerif.Proofs.C08Lookup
 import NodisVerif.Proofs.C09Table1b
 import NodisVerif.Proofs.C09Table2b
 import NodisVerif.Proofs.C09Table3
+import NodisVerif.Proofs.C09Table4
 /-
-  C09 for the server's complete dispatch: `fullSafe = Driver.lookup [table1Safe, table2Safe, table3Safe]`
+  C09 for the server's complete dispatch: `fullSafe = Driver.lookup [table1Safe, table2Safe, table3Safe, table4Safe]`
   is `fullTable` minus DECRBY (finding), SCAN … TYPE (not proved), ZREM / ZREMRANGEBYRANK /
-  ZREMRANGEBYSCORE (false on stores holding an existing empty sorted set).
+  ZREMRANGEBYSCORE (false on stores holding an existing empty sorted set), and - of the commands that
+  joined the model with `Handler4.table4` - SAVE (not proved).
 -/
 namespace NodisVerif.Proofs.C08Step
-open Resp T3
+open Resp T3 T4
 
-def safeTables : List Table := [table1Safe, table2Safe, table3Safe]
+def safeTables : List Table := [table1Safe, table2Safe, table3Safe, table4Safe]
 
 /-- the complete dispatch restricted to the commands whose closures signal what they change -/
 def fullSafe : Table := Driver.lookup safeTables
@@ -25,15 +27,16 @@ theorem fullSafe_signals : TableSignals fullSafe := by
       | direct ts => trivial
       | crash => trivial
       | exec b' =>
-        rcases ht with rfl | rfl | rfl
+        rcases ht with rfl | rfl | rfl | rfl
         · exact table1Safe_signals n a b' hr
         · exact table2Safe_signals n a b' hr
-        · exact table3Safe_signals n a b' hr) name args (.exec b) h
+        · exact table3Safe_signals n a b' hr
+        · exact table4Safe_signals n a b' hr) name args (.exec b) h
   exact this
 
 /-- what `fullSafe` leaves out of `fullTable` -/
 def excluded (name : String) (args : List Bytes) : Prop :=
-  name = "DECRBY" ∨ scanTyped name args ∨ name ∈ zRemNames
+  name = "DECRBY" ∨ scanTyped name args ∨ name ∈ zRemNames ∨ name = "SAVE"
 
 instance (name : String) (args : List Bytes) : Decidable (excluded name args) := by unfold excluded; exact inferInstance
 
@@ -42,11 +45,13 @@ theorem fullSafe_eq (name : String) (args : List Bytes) (h : ¬ excluded name ar
     fullSafe name args = fullTable name args := by
   have h1 : name ∉ ["DECRBY"] := by intro hm; exact h (Or.inl (by simpa using hm))
   have h2 : ¬ scanTyped name args := fun hm => h (Or.inr (Or.inl hm))
-  have h3 : name ∉ zRemNames := fun hm => h (Or.inr (Or.inr hm))
+  have h3 : name ∉ zRemNames := fun hm => h (Or.inr (Or.inr (Or.inl hm)))
+  have h4 : ¬ name = "SAVE" := fun hm => h (Or.inr (Or.inr (Or.inr hm)))
   simp only [fullSafe, fullTable, Driver.lookup, safeTables, allTables, List.findSome?_cons, List.findSome?_nil]
   have e1 : table1Safe name args = Handler.table1 name args := by simp [table1Safe, h1, h2]
   have e2 : table2Safe name args = Handler2.table2 name args := by rw [table2Safe_eq]
   have e3 : table3Safe name args = Handler3.table3 name args := by simp [table3Safe, h3]
-  rw [e1, e2, e3]
+  have e4 : table4Safe name args = Handler4.table4 name args := by simp [table4Safe, h4]
+  rw [e1, e2, e3, e4]
 
 end NodisVerif.Proofs.C08Step
